@@ -134,6 +134,32 @@ CHECKS["C02"] = dict(
     technique="TLA+ liveness models of the parse loops and walks + fault-catalogue contract, TLC enumeration, watched-process replay, trace validation",
 )
 
+CHECKS["C14"] = dict(
+    text="Csv.tla is the RFC 4180 reader automaton (states FS/UQ/QD/QQ/CRP/ERR) with the lemma Read(Write(rows)) = rows checked by TLC "
+         "and a refuted writer that does not double quotes; Export.tla gives Records(format, config, chunks) for JSON, JSONL, CSV, TSV "
+         "and the vector-database record formats, the batch/stream exporters as a loop machine with Conservation / Complete / "
+         "BatchShape invariants (a closed-slice variant dropping the boundary row is refuted) and filters as pure selections. The "
+         "harness's own RFC 4180 reader is validated against every TLC-enumerated character sequence before it is trusted; real "
+         "exports over an adversarial token alphabet are parsed back with encoding/json and that reader and compared with the "
+         "spec's records; random larger collections are validated by ExportTrace.tla.",
+    design_ref="4.14",
+    note=TB + " List-valued cells in CSV/TSV are only bound when no element contains a comma; invalid UTF-8 is not generated.",
+    technique="TLA+ CSV automaton + export loop machine, TLC enumeration, parse-back replay, trace validation",
+)
+
+CHECKS["C15"] = dict(
+    text="Markdown.tla / DocModel.tla: structured lines (heading, row, separator, list item, paragraph), a reference writer machine with "
+         "one Emit action per line and ReadMd, the GFM reading as a fold; RoundTrip, HeadingLevelOK (Out(level, offset, max) = "
+         "clamp), PrefixStable hold and three implementation-shaped switches (raw pipes, duplicated header row, skipped merged "
+         "cells) are refuted with minimal counterexamples. TLC enumerates tables <= 3x3 over six cell kinds with one merge, the full "
+         "heading arithmetic (9 x 10 x 6) and list shapes; every Markdown writer (model.Table, rag, htmldoc, layout, DOCX, ODT, XLSX, "
+         "PPTX via hand-written packages) is parsed back with a GFM reader that is itself validated on the spec's reference "
+         "rendering; per-element Md events of random documents are validated by MarkdownTrace.tla.",
+    design_ref="4.15",
+    note=TB + " Cell texts compared as word sequences; merged cells keep their anchor text, covered positions free; EPUB and the PDF layout path not covered.",
+    technique="TLA+ Markdown writer/reader pair with refuted variants, TLC enumeration, parse-back replay through every writer, trace validation",
+)
+
 CHECKS["C16"] = dict(
     text="WordDoc.tla is the reader contract for word-processor bodies: one action per block kind (paragraph, heading via builtin / "
          "custom basedOn chain / outline level, list item, table with merges and multi-paragraph cells) emitting the item in source "
@@ -168,6 +194,20 @@ CHECKS["C18"] = dict(
     design_ref="4.18",
     note=TB + " Writer harness/internal/ooxmlw audited per run; declared-but-missing parts not generated.",
     technique="TLA+ part-reading machine with refuted ordering variants, TLC enumeration, rendered-package replay, trace validation",
+)
+
+CHECKS["C19"] = dict(
+    text="HtmlWalk.tla: a pushdown machine generating well-nested HTML token streams that respect the HTML5 content models (so the tree "
+         "x/net/html builds is the generated tree), with the walker contract W1 (mode None returns asserted content once, in order, "
+         "entities decoded), W2 (each stricter mode is a subsequence of the weaker), W3 (tokens outside what a mode may exclude are "
+         "identical to mode None), W4 (no script/style text); the may-exclude lattice Explicit <= Standard <= Aggressive; a walker "
+         "shaped like the pinned list-item handling is refuted (ol > li > p > text). TLC enumerates documents over five alphabets "
+         "plus simulated walks; each is rendered twice (all end tags / optional end tags omitted), audited, and extracted by "
+         "htmldoc.OpenReader in 4 modes x Text/Markdown/Document, tabula.FromHTMLString and tabula.Open; random documents are "
+         "validated by HtmlWalkTrace.tla.",
+    design_ref="4.19",
+    note=TB + " Presence/once/order asserted only inside h*, p, li, td/th, pre, blockquote; bare text in div/body only obeys monotonicity; EPUB entry not covered.",
+    technique="TLA+ pushdown document generator + walker contract, TLC enumeration, rendered-document replay in four modes, trace validation",
 )
 
 CHECKS["C20"] = dict(
